@@ -16,7 +16,7 @@ import numbers
 import os
 import random as _random
 
-from . import common, gen, tlc, cliargs
+from . import common, gen, tlc, cliargs, project
 from .exc import exc_name
 
 
@@ -248,6 +248,20 @@ CHAIN_KINDS = [("xor", 2, 0), ("or", 3, 0), ("maj", 3, 0), ("eq", 2, 0), ("neq",
                ("ite", 1, 0), ("flip", 1, 0), ("lift", 2, 0), ("shuffle", 1, 0)]
 
 
+def final_listing(F):
+    """largest variable mentioned and number of literals that are 0 / not integers, read off the formula"""
+    mm = bad = 0
+    rows = F.constraints() if project.is_opb(F) else F.clauses()
+    for row in rows:
+        lits = [t[1] for t in row[:-2]] if project.is_opb(F) else row
+        for l in lits:
+            if isinstance(l, numbers.Integral) and not isinstance(l, bool) and l != 0:
+                mm = max(mm, abs(int(l)))
+            else:
+                bad += 1
+    return {"mm": mm, "bad": bad}
+
+
 # --------------------------------------------------------------------------
 # the clause container (Container.tla / ContainerTrace.tla): traces of real CNF objects
 CONTAINER_POOL = [[], [1], [-2, 1], [0], [1, 0, -2], [1, 1], [2, -2], [1, -1, 1], [-3, 3, -3], [4, 2], [5, -5, 2, 5],
@@ -384,6 +398,8 @@ def main(argv=None):
         r = {"id": rid, "fam": fam, "par": par or {"none": 0}, "chain": chain,
              "outcome": outcome, "events": rec.events(F) if F is not None else [],
              "final": int(F.number_of_variables()) if F is not None else 0}
+        # what the final formula itself lists (public iteration), whatever route the clauses took into it
+        r["listed"] = final_listing(F) if F is not None else {"mm": 0, "bad": 0}
         if graph is not None:
             r["graph"] = graph
         if graph2 is not None:
